@@ -18,13 +18,18 @@ Definition kview (sch : schema) (ob : obj) (k : nat) : option val :=
 Definition Inv_idx (sch : schema) (s : sess) : Prop :=
   forall e k v o, idx_get s e k v = Some o <-> exists ob, get_obj s o = Some ob /\ o_ent ob = e /\ kview sch ob k = Some v.
 
-Definition Pk (sch : schema) (s : sess) : Prop := s_dirty s <> O \/ Inv_idx sch s.
+(* every object carries one value slot per attribute of its entity *)
+Definition Inv_shape (sch : schema) (s : sess) : Prop :=
+  forall o ob, get_obj s o = Some ob -> length (o_vals ob) = nattrs sch (o_ent ob).
+
+Definition Pk (sch : schema) (s : sess) : Prop := s_dirty s <> O \/ (Inv_idx sch s /\ Inv_shape sch s).
 
 (* ---------------------------------------------------------------- frame: changes that no index can see *)
 
 Definition kobj_eq (sch : schema) (a b : obj) : Prop :=
   o_ent a = o_ent b /\ o_pk a = o_pk b /\ is_del (o_st a) = is_del (o_st b) /\ is_gone (o_st a) = is_gone (o_st b) /\
   (status_eqb (o_st a) SCreated = status_eqb (o_st b) SCreated) /\
+  length (o_vals a) = length (o_vals b) /\
   forall x, attr_uniq sch (o_ent a) x = true -> oval a x = oval b x.
 
 Definition kframe (sch : schema) (s s' : sess) : Prop :=
@@ -36,13 +41,13 @@ Proof. unfold kobj_eq. intuition. Qed.
 
 Lemma kobj_eq_trans : forall sch a b c, kobj_eq sch a b -> kobj_eq sch b c -> kobj_eq sch a c.
 Proof.
-  unfold kobj_eq. intros sch a b c (A1 & A2 & A3 & A4 & A5 & A6) (B1 & B2 & B3 & B4 & B5 & B6).
+  unfold kobj_eq. intros sch a b c (A1 & A2 & A3 & A4 & A5 & A7 & A6) (B1 & B2 & B3 & B4 & B5 & B7 & B6).
   repeat split; try congruence. intros x H. rewrite A6 by assumption. apply B6. rewrite <- A1. assumption.
 Qed.
 
 Lemma kobj_eq_kview : forall sch a b, kobj_eq sch a b -> forall k, kview sch a k = kview sch b k.
 Proof.
-  intros sch a b (A1 & A2 & A3 & A4 & A5 & A6) k. unfold kview. rewrite <- A1.
+  intros sch a b (A1 & A2 & A3 & A4 & A5 & A7 & A6) k. unfold kview. rewrite <- A1.
   destruct k as [|x]; simpl.
   - rewrite A4, A2. reflexivity.
   - rewrite A3. destruct (attr_uniq sch (o_ent a) x) eqn:U; simpl; auto. rewrite A6 by assumption. reflexivity.
@@ -82,9 +87,16 @@ Proof.
     + rewrite (kobj_eq_kview sch a b K). assumption.
 Qed.
 
+Lemma kframe_shape : forall sch s s', kframe sch s s' -> Inv_shape sch s -> Inv_shape sch s'.
+Proof.
+  intros sch s s' F I o b Hb. destruct (kframe_back sch s s' o b F Hb) as (a & Ha & K).
+  destruct K as (K1 & _ & _ & _ & _ & K6 & _). rewrite <- K6, <- K1. apply (I o a Ha).
+Qed.
+
 Lemma kframe_Pk : forall sch s s', kframe sch s s' -> Pk sch s -> Pk sch s'.
 Proof.
-  intros sch s s' F [D|I]. left. destruct F as (_ & A2 & _). congruence. right. eapply kframe_Inv; eauto.
+  intros sch s s' F [D|[I S]]. left. destruct F as (_ & A2 & _). congruence.
+  right. split. eapply kframe_Inv; eauto. eapply kframe_shape; eauto.
 Qed.
 
 (* only fields other than objects / indexes / dirty change *)
@@ -113,7 +125,7 @@ Lemma Pk_dirty_keep : forall sch s site, Pk sch s -> Pk sch (mark_dirty s site).
 Proof.
   intros sch s site [D|I].
   - left. unfold mark_dirty. cbn [s_dirty]. destruct (s_dirty s); congruence.
-  - destruct site. right. intros e k v o. apply (I e k v o). left. unfold mark_dirty. cbn [s_dirty]. destruct (s_dirty s); auto.
+  - destruct site. right. exact I. left. unfold mark_dirty. cbn [s_dirty]. destruct (s_dirty s); auto.
 Qed.
 
 (* ---------------------------------------------------------------- key-neutral functions *)
@@ -140,8 +152,9 @@ Proof. intros. unfold oval, ob_put_val, ob_set_vals. cbn [o_vals]. apply nth_upd
 
 Lemma kobj_eq_val : forall sch ob a v, attr_uniq sch (o_ent ob) a = false -> kobj_eq sch ob (ob_put_val ob a v).
 Proof.
-  intros sch ob a v U. unfold kobj_eq. repeat split; auto. intros x Hx.
-  destruct (Nat.eq_dec a x). subst. congruence. symmetry. apply oval_put_other. assumption.
+  intros sch ob a v U. unfold kobj_eq. repeat split; auto.
+  - unfold ob_put_val, ob_set_vals. cbn [o_vals]. symmetry. apply upd_nth_length.
+  - intros x Hx. destruct (Nat.eq_dec a x). subst. congruence. symmetry. apply oval_put_other. assumption.
 Qed.
 
 Lemma kobj_eq_st : forall sch ob st, is_del (o_st ob) = is_del st -> is_gone (o_st ob) = is_gone st ->
@@ -302,3 +315,897 @@ Proof.
 Qed.
 
 End WithSchema.
+
+(* ---------------------------------------------------------------- re-keying one object *)
+
+Lemma oval_dec : forall a b : option val, {a = b} + {a <> b}.
+Proof.
+  intros. destruct (oval_eqb a b) eqn:E. left. apply oval_eqb_eq. assumption.
+  right. intro H. apply oval_eqb_eq in H. congruence.
+Qed.
+
+(* The object o changes from ob to ob' (same entity); the index is updated accordingly: entries for the new key views of o
+   are added, entries for its old key views are dropped, everything else stays; and the new views do not collide. *)
+Lemma Inv_rekey : forall sch s s' o ob ob',
+  Inv_idx sch s ->
+  get_obj s o = Some ob -> get_obj s' o = Some ob' -> o_ent ob' = o_ent ob ->
+  (forall o', o' <> o -> get_obj s' o' = get_obj s o') ->
+  (forall e k v, idx_get s' e k v =
+     if Nat.eqb e (o_ent ob) && oval_eqb (kview sch ob' k) (Some v) then Some o
+     else if Nat.eqb e (o_ent ob) && oval_eqb (kview sch ob k) (Some v) then None
+     else idx_get s e k v) ->
+  (forall k v, kview sch ob' k = Some v -> kview sch ob k <> Some v -> idx_get s (o_ent ob) k v = None) ->
+  Inv_idx sch s'.
+Proof.
+  intros sch s s' o ob ob' I G G' E OTH IDX NC e k v o'. rewrite IDX.
+  destruct (Nat.eqb e (o_ent ob) && oval_eqb (kview sch ob' k) (Some v)) eqn:C1.
+  - apply andb_true_iff in C1. destruct C1 as [C1 C2]. apply Nat.eqb_eq in C1. apply oval_eqb_eq in C2. subst e. split.
+    + intro H. inversion H; subst o'. exists ob'. repeat split; auto.
+    + intros (b & Hb & He & Hk). destruct (Nat.eq_dec o' o) as [->|N]; auto.
+      exfalso. rewrite (OTH o' N) in Hb.
+      assert (HI : idx_get s (o_ent ob) k v = Some o') by (apply (I (o_ent ob) k v o'); exists b; auto).
+      destruct (oval_dec (kview sch ob k) (Some v)) as [Q|Q].
+      * assert (HI2 : idx_get s (o_ent ob) k v = Some o) by (apply (I (o_ent ob) k v o); exists ob; auto). congruence.
+      * rewrite (NC k v C2 Q) in HI. discriminate.
+  - destruct (Nat.eqb e (o_ent ob) && oval_eqb (kview sch ob k) (Some v)) eqn:C2.
+    + apply andb_true_iff in C2. destruct C2 as [C2 C3]. apply Nat.eqb_eq in C2. apply oval_eqb_eq in C3. subst e. split.
+      * discriminate.
+      * intros (b & Hb & He & Hk). exfalso. destruct (Nat.eq_dec o' o) as [->|N].
+        -- rewrite G' in Hb. inversion Hb; subst b. rewrite Nat.eqb_refl in C1. simpl in C1.
+           assert (oval_eqb (kview sch ob' k) (Some v) = true) by (apply oval_eqb_eq; assumption). congruence.
+        -- rewrite (OTH o' N) in Hb.
+           assert (HI : idx_get s (o_ent ob) k v = Some o') by (apply (I (o_ent ob) k v o'); exists b; auto).
+           assert (HI2 : idx_get s (o_ent ob) k v = Some o) by (apply (I (o_ent ob) k v o); exists ob; auto). congruence.
+    + rewrite (I e k v o'). split.
+      * intros (b & Hb & He & Hk). destruct (Nat.eq_dec o' o) as [->|N].
+        -- exfalso. rewrite G in Hb. inversion Hb; subst b. subst e. rewrite Nat.eqb_refl in C2. simpl in C2.
+           assert (oval_eqb (kview sch ob k) (Some v) = true) by (apply oval_eqb_eq; assumption). congruence.
+        -- exists b. rewrite (OTH o' N). auto.
+      * intros (b & Hb & He & Hk). destruct (Nat.eq_dec o' o) as [->|N].
+        -- exfalso. rewrite G' in Hb. inversion Hb; subst b. rewrite E in He. subst e. rewrite Nat.eqb_refl in C1. simpl in C1.
+           assert (oval_eqb (kview sch ob' k) (Some v) = true) by (apply oval_eqb_eq; assumption). congruence.
+        -- exists b. rewrite <- (OTH o' N). auto.
+Qed.
+
+(* a new object is appended; the index receives exactly its key views, which were free *)
+Lemma Inv_push : forall sch s s' ob,
+  Inv_idx sch s ->
+  (forall o', get_obj s' o' = if Nat.eqb o' (length (s_objs s)) then Some ob else get_obj s o') ->
+  (forall e k v, idx_get s' e k v =
+     if Nat.eqb e (o_ent ob) && oval_eqb (kview sch ob k) (Some v) then Some (length (s_objs s)) else idx_get s e k v) ->
+  (forall k v, kview sch ob k = Some v -> idx_get s (o_ent ob) k v = None) ->
+  Inv_idx sch s'.
+Proof.
+  intros sch s s' ob I G IDX NC e k v o'. rewrite IDX. rewrite G.
+  destruct (Nat.eqb e (o_ent ob) && oval_eqb (kview sch ob k) (Some v)) eqn:C1.
+  - apply andb_true_iff in C1. destruct C1 as [C1 C2]. apply Nat.eqb_eq in C1. apply oval_eqb_eq in C2. subst e. split.
+    + intro H. inversion H; subst o'. rewrite Nat.eqb_refl. exists ob. auto.
+    + intros (b & Hb & He & Hk). destruct (Nat.eqb o' (length (s_objs s))) eqn:N.
+      * apply Nat.eqb_eq in N. subst o'. reflexivity.
+      * exfalso. assert (HI : idx_get s (o_ent ob) k v = Some o') by (apply (I (o_ent ob) k v o'); exists b; auto).
+        rewrite (NC k v C2) in HI. discriminate.
+  - destruct (Nat.eqb o' (length (s_objs s))) eqn:N.
+    + apply Nat.eqb_eq in N. subst o'. split.
+      * intro H. apply (I e k v) in H. destruct H as (b & Hb & _). apply get_obj_lt in Hb. lia.
+      * intros (b & Hb & He & Hk). exfalso. inversion Hb; subst b. subst e. rewrite Nat.eqb_refl in C1. simpl in C1.
+        assert (oval_eqb (kview sch ob k) (Some v) = true) by (apply oval_eqb_eq; assumption). congruence.
+    + apply (I e k v o').
+Qed.
+
+Lemma Inv_rekey_slot : forall sch s s' o ob ob' k0,
+  Inv_idx sch s ->
+  get_obj s o = Some ob -> get_obj s' o = Some ob' -> o_ent ob' = o_ent ob ->
+  (forall o', o' <> o -> get_obj s' o' = get_obj s o') ->
+  (forall k, k <> k0 -> kview sch ob' k = kview sch ob k) ->
+  (forall e k v, idx_get s' e k v =
+     if Nat.eqb e (o_ent ob) && Nat.eqb k k0 && oval_eqb (kview sch ob' k0) (Some v) then Some o
+     else if Nat.eqb e (o_ent ob) && Nat.eqb k k0 && oval_eqb (kview sch ob k0) (Some v) then None
+     else idx_get s e k v) ->
+  (forall v, kview sch ob' k0 = Some v -> kview sch ob k0 <> Some v -> idx_get s (o_ent ob) k0 v = None) ->
+  Inv_idx sch s'.
+Proof.
+  intros sch s s' o ob ob' k0 I G G' E OTH SAME IDX NC.
+  eapply Inv_rekey; eauto.
+  - intros e k v. rewrite IDX. destruct (Nat.eqb e (o_ent ob)) eqn:Ee; simpl; auto.
+    destruct (Nat.eqb k k0) eqn:Ek; simpl.
+    + apply Nat.eqb_eq in Ek. subst k. reflexivity.
+    + apply Nat.eqb_neq in Ek. rewrite (SAME k Ek).
+      destruct (oval_eqb (kview sch ob k) (Some v)) eqn:Q; auto.
+      apply oval_eqb_eq in Q. apply Nat.eqb_eq in Ee. subst e. apply (I (o_ent ob) k v o). exists ob. auto.
+  - intros k v H1 H2. destruct (Nat.eq_dec k k0) as [->|N]. auto. rewrite (SAME k N) in H1. contradiction.
+Qed.
+
+Lemma idx_put_char : forall s e k v o e' k' v',
+  idx_get (idx_put s e k v o) e' k' v' = if Nat.eqb e' e && Nat.eqb k' k && val_eqb v' v then Some o else idx_get s e' k' v'.
+Proof.
+  intros. destruct (Nat.eqb e' e && Nat.eqb k' k && val_eqb v' v) eqn:C.
+  - apply andb_true_iff in C. destruct C as [C C3]. apply andb_true_iff in C. destruct C as [C1 C2].
+    apply Nat.eqb_eq in C1, C2. apply val_eqb_eq in C3. subst. apply idx_get_put_same.
+  - apply idx_get_put_other. intro H. inversion H; subst. rewrite !Nat.eqb_refl, val_eqb_refl in C. discriminate.
+Qed.
+
+Lemma idx_del_char : forall s e k v e' k' v',
+  idx_get (idx_del s e k v) e' k' v' = if Nat.eqb e' e && Nat.eqb k' k && val_eqb v' v then None else idx_get s e' k' v'.
+Proof.
+  intros. destruct (Nat.eqb e' e && Nat.eqb k' k && val_eqb v' v) eqn:C.
+  - apply andb_true_iff in C. destruct C as [C C3]. apply andb_true_iff in C. destruct C as [C1 C2].
+    apply Nat.eqb_eq in C1, C2. apply val_eqb_eq in C3. subst. apply idx_get_del_same.
+  - apply idx_get_del_other. intro H. inversion H; subst. rewrite !Nat.eqb_refl, val_eqb_refl in C. discriminate.
+Qed.
+
+Lemma nth_repeat : forall A (x : A) n i d, nth i (repeat x n) d = x \/ nth i (repeat x n) d = d.
+Proof. induction n; destruct i; simpl; auto. Qed.
+
+Lemma nth_repeat_same : forall A (x : A) n i, nth i (repeat x n) x = x.
+Proof. intros. destruct (nth_repeat A x n i x); auto. Qed.
+
+Lemma kview_new_loaded : forall sch e pk k, kview sch (new_loaded sch e pk) k = match k with O => Some (VInt pk) | S _ => None end.
+Proof.
+  intros. unfold kview, new_loaded. cbn [o_ent o_st o_pk]. destruct k; simpl. reflexivity.
+  unfold oval. cbn [o_vals]. rewrite nth_repeat_same. destruct (attr_uniq sch e k); reflexivity.
+Qed.
+
+Lemma get_or_seed_dirty : forall sch s e pk, s_dirty (fst (get_or_seed sch s e pk)) = s_dirty s.
+Proof. intros. unfold get_or_seed. destruct (idx_get s e O (VInt pk)); reflexivity. Qed.
+
+Lemma get_or_seed_none : forall sch s e pk, idx_get s e O (VInt pk) = None ->
+  get_or_seed sch s e pk = (idx_put (fst (push_obj s (new_loaded sch e pk))) e O (VInt pk) (length (s_objs s)), length (s_objs s)).
+Proof. intros. unfold get_or_seed. rewrite H. reflexivity. Qed.
+
+Lemma get_obj_idx_put : forall s e k v o o', get_obj (idx_put s e k v o) o' = get_obj s o'. Proof. reflexivity. Qed.
+Lemma get_obj_idx_del : forall s e k v o', get_obj (idx_del s e k v) o' = get_obj s o'. Proof. reflexivity. Qed.
+Lemma idx_get_push : forall s ob e k v, idx_get (fst (push_obj s ob)) e k v = idx_get s e k v. Proof. reflexivity. Qed.
+Lemma idx_get_upd_obj : forall s o f e k v, idx_get (upd_obj s o f) e k v = idx_get s e k v.
+Proof. intros. unfold idx_get. rewrite upd_obj_idx. reflexivity. Qed.
+
+Lemma Pk_get_or_seed : forall sch s e pk, Pk sch s -> Pk sch (fst (get_or_seed sch s e pk)).
+Proof.
+  intros sch s e pk [D|[I S]]. left. rewrite get_or_seed_dirty. assumption.
+  right. destruct (idx_get s e O (VInt pk)) eqn:G.
+  - unfold get_or_seed. rewrite G. auto.
+  - rewrite (get_or_seed_none sch s e pk G). cbn [fst]. split.
+    + eapply (Inv_push sch s _ (new_loaded sch e pk)); eauto.
+      * intros o'. rewrite get_obj_idx_put. apply get_push_obj.
+      * intros e' k v. rewrite idx_put_char, idx_get_push.
+        rewrite kview_new_loaded. cbn [o_ent new_loaded]. destruct (Nat.eqb e' e); simpl; auto.
+        destruct k; simpl; auto. destruct v; simpl; auto. rewrite Z.eqb_sym. reflexivity.
+      * intros k v. rewrite kview_new_loaded. cbn [o_ent new_loaded]. destruct k; intro H; inversion H; subst. assumption.
+    + intros o' ob'. rewrite get_obj_idx_put, get_push_obj. destruct (Nat.eqb o' (length (s_objs s))).
+      * intro H. inversion H; subst. unfold new_loaded. cbn [o_vals o_ent]. apply repeat_length.
+      * apply S.
+Qed.
+
+(* ---------------------------------------------------------------- entity and status of existing objects are kept *)
+
+Definition est_same (s s' : sess) : Prop := forall o, obj_ent s' o = obj_ent s o /\ obj_st s' o = obj_st s o.
+
+Lemma est_same_refl : forall s, est_same s s. Proof. intros s o. auto. Qed.
+Lemma est_same_trans : forall s1 s2 s3, est_same s1 s2 -> est_same s2 s3 -> est_same s1 s3.
+Proof. intros s1 s2 s3 A B o. destruct (A o), (B o). split; congruence. Qed.
+
+Lemma est_same_objs : forall s s', s_objs s' = s_objs s -> est_same s s'.
+Proof. intros s s' H o. unfold obj_ent, obj_st, get_obj. rewrite H. auto. Qed.
+
+Lemma est_same_upd_obj : forall s o f, (forall ob, o_ent (f ob) = o_ent ob /\ o_st (f ob) = o_st ob) -> est_same s (upd_obj s o f).
+Proof.
+  intros s o f H o'. unfold obj_ent, obj_st. rewrite get_upd_obj. destruct (Nat.eqb o o'); auto.
+  destruct (get_obj s o') as [ob|]; simpl; auto; try apply H.
+Qed.
+
+Lemma est_same_put_obj : forall s o ob ob', get_obj s o = Some ob -> o_ent ob' = o_ent ob -> o_st ob' = o_st ob -> est_same s (put_obj s o ob').
+Proof.
+  intros s o ob ob' G E S o'. unfold obj_ent, obj_st. rewrite get_put_obj. destruct (Nat.eqb o o') eqn:N; auto.
+  apply Nat.eqb_eq in N. subst. rewrite G. auto.
+Qed.
+
+Lemma est_same_db_rev_add : forall s w a i, est_same s (out_state (db_rev_add s w a i)).
+Proof.
+  intros. unfold db_rev_add. destruct (get_obj s w) as [ob|] eqn:G; [|apply est_same_refl].
+  destruct (oset ob a) as [sd|].
+  - destruct (sd_full sd). apply est_same_refl. simpl. eapply est_same_put_obj; eauto.
+  - simpl. eapply est_same_put_obj; eauto.
+Qed.
+
+Lemma est_same_dbset_index : forall sch s o e a v, est_same s (dbset_index sch s o e a v).
+Proof.
+  intros. unfold dbset_index. destruct (attr_uniq sch e a && negb (oval_eqb (obj_val s o a) (Some v))); [|apply est_same_refl].
+  apply est_same_objs. destruct (is_vnone v); destruct (obj_val s o a) as [ov|]; try destruct (is_vnone ov); reflexivity.
+Qed.
+
+Lemma est_same_dbset_attr : forall sch s o e a v, est_same s (out_state (dbset_attr sch s o e a v)).
+Proof.
+  intros. unfold dbset_attr. destruct (get_obj s o) as [ob|] eqn:G; [|apply est_same_refl].
+  destruct (get_attr sch e a) as [at_|]; [|apply est_same_refl].
+  destruct (is_set_kind (a_kind at_)); [apply est_same_refl|].
+  destruct (odbval ob a) as [old|].
+  { destruct (val_eqb old v). apply est_same_refl. simpl. apply est_same_objs. reflexivity. }
+  destruct (owbit ob a).
+  { destruct (a_kind at_) as [| |t r|t r]; try (simpl; apply est_same_upd_obj; intros; auto).
+    destruct v; try (simpl; apply est_same_upd_obj; intros; auto).
+    pose proof (est_same_db_rev_add s o0 r o) as E1. destruct (db_rev_add s o0 r o) as [s1 u|s1 er]; simpl in *.
+    - eapply est_same_trans. apply E1. eapply est_same_trans; [|apply est_same_objs; reflexivity].
+      apply est_same_upd_obj. intros; auto.
+    - eapply est_same_trans. apply E1. apply est_same_objs. reflexivity. }
+  destruct (oval ob a). { simpl. apply est_same_objs. reflexivity. }
+  match goal with |- context [if ?c then _ else _] => destruct c end. { simpl. apply est_same_objs. reflexivity. }
+  assert (E1 : est_same s (out_state (match a_kind at_, v with KRef _ r, VRef y => db_rev_add s y r o | _, _ => Ok s tt end))).
+  { destruct (a_kind at_); try apply est_same_refl. destruct v; try apply est_same_refl. apply est_same_db_rev_add. }
+  destruct (match a_kind at_, v with KRef _ r, VRef y => db_rev_add s y r o | _, _ => Ok s tt end) as [s1 u|s1 er]; simpl in *.
+  - eapply est_same_trans. apply E1. eapply est_same_trans. apply est_same_dbset_index. apply est_same_upd_obj. intros; auto.
+  - eapply est_same_trans. apply E1. apply est_same_objs. reflexivity.
+Qed.
+
+(* ---------------------------------------------------------------- loading: _db_set_ for one attribute *)
+
+Lemma oval_put_same : forall ob a x, (a < length (o_vals ob))%nat -> oval (ob_put_val ob a x) a = x.
+Proof. intros. unfold oval, ob_put_val, ob_set_vals. cbn [o_vals]. apply nth_upd_nth_same. assumption. Qed.
+
+Lemma kview_put_val_other : forall sch ob a x k, k <> S a -> kview sch (ob_put_val ob a x) k = kview sch ob k.
+Proof.
+  intros. unfold kview. cbn [o_ent o_st ob_put_val ob_set_vals]. destruct k as [|b]; auto.
+  simpl. assert (b <> a) by congruence. rewrite oval_put_other by auto. reflexivity.
+Qed.
+
+Lemma get_attr_lt : forall sch e a at_, get_attr sch e a = Some at_ -> (a < nattrs sch e)%nat.
+Proof.
+  intros. unfold get_attr, nattrs in *. destruct (nth_error sch e); try discriminate. apply nth_error_Some. congruence.
+Qed.
+
+Lemma val_eqb_sym : forall a b, val_eqb a b = val_eqb b a.
+Proof.
+  intros. destruct (val_eqb a b) eqn:E. apply val_eqb_eq in E. subst. symmetry. apply val_eqb_refl.
+  destruct (val_eqb b a) eqn:E2; auto. apply val_eqb_eq in E2. subst. rewrite val_eqb_refl in E. discriminate.
+Qed.
+
+Lemma is_vnone_false : forall v, is_vnone v = false -> v <> VNone.
+Proof. intros. intro. subst. discriminate. Qed.
+
+(* setting the value of an attribute that was not loaded; the index gets the new value if the attribute is a key *)
+Lemma Inv_load_val : forall sch s o ob a v (f : obj -> obj),
+  Inv_idx sch s -> Inv_shape sch s ->
+  get_obj s o = Some ob -> is_del (o_st ob) = false -> oval ob a = None -> (a < nattrs sch (o_ent ob))%nat ->
+  (forall ob2, o_ent (f ob2) = o_ent ob2 /\ o_st (f ob2) = o_st ob2 /\ o_pk (f ob2) = o_pk ob2 /\ o_vals (f ob2) = upd_nth (o_vals ob2) a (Some v)) ->
+  (attr_uniq sch (o_ent ob) a = true -> is_vnone v = false -> idx_get s (o_ent ob) (S a) v = None) ->
+  let s1 := if attr_uniq sch (o_ent ob) a && negb (is_vnone v) then idx_put s (o_ent ob) (S a) v o else s in
+  Inv_idx sch (upd_obj s1 o f) /\ Inv_shape sch (upd_obj s1 o f).
+Proof.
+  intros sch s o ob a v f I SH G D UL LT F NC s1.
+  assert (G1 : get_obj s1 o = Some ob) by (unfold s1; destruct (attr_uniq sch (o_ent ob) a && negb (is_vnone v)); auto).
+  destruct (F ob) as (F1 & F2 & F3 & F4).
+  assert (KO : forall k, k <> S a -> kview sch (f ob) k = kview sch ob k).
+  { intros k N. unfold kview. rewrite F1, F2. destruct k as [|b]; simpl.
+    - rewrite F3. reflexivity.
+    - unfold oval. rewrite F4. rewrite nth_upd_nth_other by congruence. reflexivity. }
+  assert (KN : kview sch (f ob) (S a) = if attr_uniq sch (o_ent ob) a && negb (is_vnone v) then Some v else None).
+  { unfold kview. rewrite F1, F2. simpl. rewrite D. simpl. unfold oval. rewrite F4.
+    rewrite nth_upd_nth_same by (rewrite (SH o ob G); assumption).
+    destruct (attr_uniq sch (o_ent ob) a); simpl; auto. destruct (is_vnone v); auto. }
+  assert (KOld : kview sch ob (S a) = None).
+  { unfold kview. simpl. rewrite UL. destruct (attr_uniq sch (o_ent ob) a && negb (is_del (o_st ob))); auto. }
+  split.
+  - eapply (Inv_rekey_slot sch s (upd_obj s1 o f) o ob (f ob) (S a)); eauto.
+    + rewrite get_upd_obj_same, G1. reflexivity.
+    + intros o' N. rewrite get_upd_obj_other by auto. unfold s1. destruct (attr_uniq sch (o_ent ob) a && negb (is_vnone v)); auto.
+    + intros e k v'. rewrite idx_get_upd_obj. rewrite KN, KOld. unfold s1.
+      destruct (attr_uniq sch (o_ent ob) a && negb (is_vnone v)) eqn:C.
+      * rewrite idx_put_char. simpl. rewrite (val_eqb_sym v' v). rewrite andb_false_r. reflexivity.
+      * simpl. rewrite !andb_false_r. reflexivity.
+    + intros v' H1 H2. rewrite KN in H1. destruct (attr_uniq sch (o_ent ob) a && negb (is_vnone v)) eqn:C; try discriminate.
+      inversion H1; subst v'. apply andb_true_iff in C. destruct C as [C1 C2]. apply negb_true_iff in C2. auto.
+  - intros o' ob'. rewrite get_upd_obj. destruct (Nat.eqb o o') eqn:N.
+    + apply Nat.eqb_eq in N. subst o'. rewrite G1. simpl. intro H. inversion H; subst ob'.
+      rewrite F4, upd_nth_length, F1. apply (SH o ob G).
+    + intro H. apply (SH o' ob'). rewrite <- H. unfold s1. destruct (attr_uniq sch (o_ent ob) a && negb (is_vnone v)); auto.
+Qed.
+
+Lemma dbset_index_unloaded : forall sch s o e a v, obj_val s o a = None ->
+  dbset_index sch s o e a v = if attr_uniq sch e a && negb (is_vnone v) then idx_put s e (S a) v o else s.
+Proof.
+  intros. unfold dbset_index. rewrite H. simpl. rewrite andb_true_r.
+  destruct (attr_uniq sch e a); simpl; auto. destruct (is_vnone v); reflexivity.
+Qed.
+
+Lemma obj_val_get : forall s o ob a, get_obj s o = Some ob -> obj_val s o a = oval ob a.
+Proof. intros. unfold obj_val. rewrite H. reflexivity. Qed.
+
+Lemma dbset_index_dirty : forall sch s o e a v, s_dirty (dbset_index sch s o e a v) = s_dirty s.
+Proof.
+  intros. unfold dbset_index. destruct (attr_uniq sch e a && negb (oval_eqb (obj_val s o a) (Some v))); auto.
+  destruct (is_vnone v); destruct (obj_val s o a) as [ov|]; try destruct (is_vnone ov); reflexivity.
+Qed.
+
+Lemma Pk_dbset_attr : forall sch s o e a v,
+  Pk sch s -> obj_ent s o = e -> is_del (obj_st s o) = false ->
+  Pk sch (out_state (dbset_attr sch s o e a v)).
+Proof.
+  intros sch s o e a v P EE DD. unfold dbset_attr.
+  destruct (get_obj s o) as [ob|] eqn:G; [|exact P].
+  destruct (get_attr sch e a) as [at_|] eqn:GA; [|exact P].
+  destruct (is_set_kind (a_kind at_)); [exact P|].
+  destruct (odbval ob a) as [old|].
+  { destruct (val_eqb old v). exact P. simpl. apply Pk_dirty. discriminate. }
+  destruct (owbit ob a).
+  { assert (Q : Pk sch (upd_obj s o (fun ob2 => ob_put_dbval ob2 a (Some v)))).
+    { eapply kframe_Pk; eauto. apply kframe_upd_obj. intros. apply kobj_eq_dbval. }
+    destruct (a_kind at_) as [| |t r|t r]; try exact Q.
+    destruct v; try exact Q.
+    destruct (db_rev_add s o0 r o); simpl; apply Pk_dirty; discriminate. }
+  destruct (oval ob a) eqn:OV. { simpl. apply Pk_dirty. discriminate. }
+  match goal with |- context [if ?c then _ else _] => destruct c eqn:CF end. { simpl. apply Pk_dirty. discriminate. }
+  set (r1 := match a_kind at_, v with KRef _ r, VRef y => db_rev_add s y r o | _, _ => Ok s tt end).
+  assert (F1 : kframe sch s (out_state r1)).
+  { unfold r1. destruct (a_kind at_); try apply kframe_refl. destruct v; try apply kframe_refl. apply kframe_db_rev_add. }
+  destruct r1 as [s1 u|s1 er] eqn:R1; simpl in F1 |- *; [|apply Pk_dirty; discriminate].
+  destruct P as [D|[I SH]].
+  { left. rewrite upd_obj_dirty, dbset_index_dirty. destruct F1 as (_ & F1 & _). congruence. }
+  right.
+  pose proof (kframe_Inv sch s s1 F1 I) as I1. pose proof (kframe_shape sch s s1 F1 SH) as SH1.
+  pose proof F1 as (FI & _ & _ & F2). destruct (F2 o ob G) as (ob1 & G1 & K).
+  destruct K as (K1 & K2 & K3 & K4 & K5 & K6 & K7).
+  assert (E1 : o_ent ob = e) by (rewrite <- EE; symmetry; apply obj_ent_get; assumption).
+  assert (D1 : is_del (o_st ob1) = false) by (rewrite <- K3; rewrite <- (obj_st_get s o ob G); assumption).
+  assert (FF : forall ob2 : obj,
+     o_ent (ob_put_val (ob_put_dbval ob2 a (Some v)) a (Some v)) = o_ent ob2 /\
+     o_st (ob_put_val (ob_put_dbval ob2 a (Some v)) a (Some v)) = o_st ob2 /\
+     o_pk (ob_put_val (ob_put_dbval ob2 a (Some v)) a (Some v)) = o_pk ob2 /\
+     o_vals (ob_put_val (ob_put_dbval ob2 a (Some v)) a (Some v)) = upd_nth (o_vals ob2) a (Some v)).
+  { intros. unfold ob_put_val, ob_put_dbval, ob_set_vals, ob_set_dbvals. cbn. auto. }
+  destruct (attr_uniq sch e a) eqn:U.
+  - assert (UL : oval ob1 a = None) by (rewrite <- K7; [assumption | rewrite E1; assumption]).
+    rewrite (dbset_index_unloaded sch s1 o e a v) by (rewrite (obj_val_get s1 o ob1 a G1); assumption).
+    rewrite <- E1, K1.
+    apply (Inv_load_val sch s1 o ob1 a v); auto.
+    + rewrite <- K1, E1. eapply get_attr_lt; eauto.
+    + intros U1 NV. rewrite <- K1, E1. rewrite NV in CF. simpl in CF.
+      assert (IG : idx_get s1 e (S a) v = idx_get s e (S a) v) by (unfold idx_get; rewrite FI; reflexivity).
+      rewrite IG. destruct (idx_get s e (S a) v) as [o2|] eqn:IX; auto.
+      apply negb_false_iff in CF. apply Nat.eqb_eq in CF. subst o2.
+      exfalso. apply (I e (S a) v o) in IX. destruct IX as (b & Hb & He & Hk). rewrite G in Hb. inversion Hb; subst b.
+      unfold kview in Hk. simpl in Hk. rewrite OV in Hk. destruct (attr_uniq sch (o_ent ob) a && negb (is_del (o_st ob))); discriminate.
+  - assert (DI : dbset_index sch s1 o e a v = s1) by (unfold dbset_index; rewrite U; reflexivity).
+    rewrite DI.
+    assert (F3 : kframe sch s1 (upd_obj s1 o (fun ob2 => ob_put_val (ob_put_dbval ob2 a (Some v)) a (Some v)))).
+    { apply kframe_upd_obj. intros ob2 G2. rewrite G1 in G2. inversion G2; subst ob2.
+      eapply kobj_eq_trans. apply (kobj_eq_dbval sch ob1 a (Some v)).
+      apply kobj_eq_val. cbn. rewrite <- K1, E1. assumption. }
+    split. eapply kframe_Inv; eauto. eapply kframe_shape; eauto.
+Qed.
+
+(* ---------------------------------------------------------------- loading rows *)
+
+Lemma Pk_dbset_loop : forall sch vals s o e a,
+  Pk sch s -> obj_ent s o = e -> is_del (obj_st s o) = false ->
+  Pk sch (out_state (dbset_loop sch s o e a vals)).
+Proof.
+  intros sch vals. induction vals as [|v t IH]; intros s o e a P EE DD; simpl. exact P.
+  pose proof (Pk_dbset_attr sch s o e a v P EE DD) as P1.
+  pose proof (est_same_dbset_attr sch s o e a v o) as [E1 E2].
+  destruct (dbset_attr sch s o e a v) as [s1 u|s1 er]; simpl in *; auto.
+  apply IH; auto. congruence. rewrite E2. assumption.
+Qed.
+
+Lemma Pk_db_set_obj : forall sch s o e vals,
+  Pk sch s -> obj_ent s o = e -> is_del (obj_st s o) = false ->
+  Pk sch (out_state (db_set_obj sch s o e vals)).
+Proof.
+  intros. unfold db_set_obj.
+  assert (F : kframe sch s (upd_obj s o (fun ob => ob_set_seed ob false))) by (apply kframe_upd_obj; intros; apply kobj_eq_seed).
+  apply Pk_dbset_loop.
+  - eapply kframe_Pk; eauto.
+  - rewrite (kframe_obj_ent sch s _ o F). assumption.
+  - rewrite (kframe_is_del sch s _ o F). assumption.
+Qed.
+
+Lemma Pk_parse_cols : forall sch cols s e a, Pk sch s -> Pk sch (fst (parse_cols sch s e a cols)).
+Proof.
+  intros sch cols. induction cols as [|c t IH]; intros s e a P; simpl. exact P.
+  destruct (ref_info sch e a) as [[tgt r]|].
+  - destruct c; try (specialize (IH s e (S a) P); destruct (parse_cols sch s e (S a) t); exact IH).
+    pose proof (Pk_get_or_seed sch s tgt z P) as P1. destruct (get_or_seed sch s tgt z) as [s1 o]. simpl in P1.
+    specialize (IH s1 e (S a) P1). destruct (parse_cols sch s1 e (S a) t). exact IH.
+  - specialize (IH s e (S a) P). destruct (parse_cols sch s e (S a) t). exact IH.
+Qed.
+
+Lemma Pk_load_row : forall sch s e r, Pk sch s -> Pk sch (out_state (load_row sch s e r)).
+Proof.
+  intros sch s e r P. unfold load_row.
+  pose proof (Pk_parse_cols sch (r_cols r) s e O P) as P1. destruct (parse_cols sch s e 0 (r_cols r)) as [s1 vals]. simpl in P1.
+  pose proof (Pk_get_or_seed sch s1 e (r_pk r) P1) as P2. destruct (get_or_seed sch s1 e (r_pk r)) as [s2 o]. simpl in P2.
+  destruct (is_del (obj_st s2 o)) eqn:D. exact P2.
+  destruct (status_eqb (obj_st s2 o) SCreated). simpl. apply Pk_dirty. discriminate.
+  pose proof (Pk_db_set_obj sch s2 o (obj_ent s2 o) vals P2 eq_refl D) as P3.
+  destruct (db_set_obj sch s2 o (obj_ent s2 o) vals); exact P3.
+Qed.
+
+Lemma Pk_load_rows : forall sch rows s e, Pk sch s -> Pk sch (out_state (load_rows sch s e rows)).
+Proof.
+  intros sch rows. induction rows as [|r t IH]; intros s e P; simpl. exact P.
+  pose proof (Pk_load_row sch s e r P) as P1. destruct (load_row sch s e r) as [s1 x|s1 er]; simpl in *; auto.
+  specialize (IH s1 e P1). destruct (load_rows sch s1 e t); exact IH.
+Qed.
+
+Lemma Pk_load_obj_noflush : forall sch s o, Pk sch s -> Pk sch (out_state (load_obj_noflush sch s o)).
+Proof.
+  intros sch s o P. unfold load_obj_noflush. destruct (get_obj s o) as [ob|]; [|exact P].
+  destruct (o_pk ob) as [pk|]; [|exact P].
+  match goal with |- context [load_rows sch s ?e ?rows] => pose proof (Pk_load_rows sch rows s e P) as P1; destruct (load_rows sch s e rows) as [s1 os|s1 er] end; simpl in *; auto.
+  destruct (mem_nat o os); exact P1.
+Qed.
+
+Lemma Pk_fields : forall sch s s', s_objs s' = s_objs s -> s_idx s' = s_idx s -> s_dirty s' = s_dirty s -> Pk sch s -> Pk sch s'.
+Proof. intros. eapply kframe_Pk; eauto. apply kframe_fields; auto. Qed.
+
+Lemma Pk_coll_load_noflush : forall sch s o a, Pk sch s -> Pk sch (out_state (coll_load_noflush sch s o a)).
+Proof.
+  intros sch s o a P. unfold coll_load_noflush.
+  assert (P0 : Pk sch (coll_ensure s o a)) by (eapply kframe_Pk; eauto; apply kframe_coll_ensure).
+  destruct (coll_full (coll_ensure s o a) o a). exact P0.
+  destruct (get_obj (coll_ensure s o a) o) as [ob|]; [|exact P0].
+  destruct (set_info sch (obj_ent (coll_ensure s o a) o) a) as [[t r]|]; [|exact P0].
+  match goal with |- context [load_rows sch ?s1 t ?rows] =>
+    assert (P1 : Pk sch s1) by (eapply kframe_Pk; [apply kframe_fold; intros; apply kframe_coll_ensure | exact P0]);
+    pose proof (Pk_load_rows sch rows s1 t P1) as P2; destruct (load_rows sch s1 t rows) as [s2 os|s2 er] end; cbn [out_state] in *; auto.
+  eapply Pk_fields; [reflexivity|reflexivity|reflexivity|].
+  eapply kframe_Pk; [apply kframe_fold; intros; apply kframe_coll_mark_full | exact P2].
+Qed.
+
+Lemma Pk_coll_load_items : forall sch s o a items, Pk sch s -> Pk sch (out_state (coll_load_items sch s o a items)).
+Proof.
+  intros sch s o a items P. unfold coll_load_items.
+  assert (P0 : Pk sch (coll_ensure s o a)) by (eapply kframe_Pk; eauto; apply kframe_coll_ensure).
+  destruct (coll_full (coll_ensure s o a) o a). exact P0.
+  destruct (set_info sch (obj_ent (coll_ensure s o a) o) a) as [[t r]|]; [|exact P0].
+  destruct items as [|i items]. apply Pk_coll_load_noflush. exact P0.
+  match goal with |- context [match ?u with [] => _ | _ :: _ => _ end] => destruct u end. exact P0.
+  destruct (sd_items (get_sd (coll_ensure s o a) o a)).
+  - match goal with |- context [load_rows sch ?s1 t ?rows] =>
+      pose proof (Pk_load_rows sch rows s1 t P0) as P2; destruct (load_rows sch s1 t rows) as [s2 os|s2 er] end; exact P2.
+  - apply Pk_coll_load_noflush. exact P0.
+Qed.
+
+(* ---------------------------------------------------------------- flush *)
+
+(* o changes but shows the same key views: nothing to do in the index *)
+Lemma Inv_same_kview : forall sch s s' o ob ob',
+  Inv_idx sch s -> get_obj s o = Some ob -> get_obj s' o = Some ob' -> o_ent ob' = o_ent ob ->
+  (forall o', o' <> o -> get_obj s' o' = get_obj s o') ->
+  (forall k, kview sch ob' k = kview sch ob k) -> s_idx s' = s_idx s -> Inv_idx sch s'.
+Proof.
+  intros sch s s' o ob ob' I G G' E OTH SAME IDX.
+  eapply Inv_rekey; eauto.
+  - intros e k v. unfold idx_get at 1. rewrite IDX. fold (idx_get s e k v). rewrite SAME.
+    destruct (Nat.eqb e (o_ent ob) && oval_eqb (kview sch ob k) (Some v)) eqn:C; auto.
+    apply andb_true_iff in C. destruct C as [C1 C2]. apply Nat.eqb_eq in C1. apply oval_eqb_eq in C2. subst e.
+    apply (I (o_ent ob) k v o). exists ob. auto.
+  - intros k v H1 H2. rewrite SAME in H1. contradiction.
+Qed.
+
+Lemma shape_upd_obj : forall sch s o f,
+  Inv_shape sch s -> (forall ob, o_ent (f ob) = o_ent ob /\ length (o_vals (f ob)) = length (o_vals ob)) -> Inv_shape sch (upd_obj s o f).
+Proof.
+  intros sch s o f SH F o' ob'. rewrite get_upd_obj. destruct (Nat.eqb o o').
+  - destruct (get_obj s o') as [ob|] eqn:G; simpl; intro H; inversion H; subst. destruct (F ob) as [F1 F2]. rewrite F1, F2. apply (SH o' ob G).
+  - apply SH.
+Qed.
+
+Lemma shape_fields : forall sch s s', s_objs s' = s_objs s -> Inv_shape sch s -> Inv_shape sch s'.
+Proof. intros sch s s' H SH o ob G. apply (SH o ob). unfold get_obj in *. congruence. Qed.
+
+Lemma after_update_vals_same : forall sch ob,
+  o_ent (after_update_vals sch ob) = o_ent ob /\ o_st (after_update_vals sch ob) = o_st ob /\
+  o_pk (after_update_vals sch ob) = o_pk ob /\ o_vals (after_update_vals sch ob) = o_vals ob.
+Proof.
+  intros. unfold after_update_vals. generalize (seq O (nattrs sch (o_ent ob))). intro l.
+  assert (H : forall acc, o_ent (fold_left (fun acc a => if owbit ob a then match oval acc a with Some v => ob_put_dbval acc a (Some v) | None => acc end else acc) l acc) = o_ent acc /\
+     o_st (fold_left (fun acc a => if owbit ob a then match oval acc a with Some v => ob_put_dbval acc a (Some v) | None => acc end else acc) l acc) = o_st acc /\
+     o_pk (fold_left (fun acc a => if owbit ob a then match oval acc a with Some v => ob_put_dbval acc a (Some v) | None => acc end else acc) l acc) = o_pk acc /\
+     o_vals (fold_left (fun acc a => if owbit ob a then match oval acc a with Some v => ob_put_dbval acc a (Some v) | None => acc end else acc) l acc) = o_vals acc).
+  { induction l as [|a l IH]; intros acc; simpl. auto.
+    destruct (IH (if owbit ob a then match oval acc a with Some v => ob_put_dbval acc a (Some v) | None => acc end else acc)) as (A & B & C & D).
+    rewrite A, B, C, D. destruct (owbit ob a); auto. destruct (oval acc a); auto. }
+  apply H.
+Qed.
+
+Lemma Pk_save_updated : forall sch s o, Pk sch s -> Pk sch (out_state (save_updated sch s o)).
+Proof.
+  intros sch s o P. unfold save_updated. destruct (get_obj s o) as [ob|] eqn:G; [|exact P].
+  destruct (status_eqb (o_st ob) SModified) eqn:ST; simpl; [|apply Pk_dirty; discriminate].
+  match goal with |- context [if ?c then _ else _] => destruct c end. exact P.
+  assert (FIN : forall s1, Pk sch s1 -> get_obj s1 o = Some ob ->
+     Pk sch (upd_obj s1 o (fun ob2 => ob_set_wbits (ob_set_st (after_update_vals sch ob2) SUpdated) (repeat false (nattrs sch (o_ent ob)))))).
+  { intros s1 P1 G1. eapply kframe_Pk; eauto. apply kframe_upd_obj. intros ob2 G2. rewrite G1 in G2. inversion G2; subst ob2.
+    destruct (after_update_vals_same sch ob) as (A & B & C & D).
+    unfold kobj_eq. cbn [o_ent o_pk o_st o_vals ob_set_wbits ob_set_st]. rewrite A, C, D. repeat split; auto;
+      try (destruct (o_st ob); simpl in *; try discriminate; auto; fail).
+    intros x _. unfold oval. cbn [o_vals ob_set_wbits ob_set_st]. rewrite D. reflexivity. }
+  destruct (written_asg sch s ob) as [|p l] eqn:W.
+  - simpl. apply FIN; auto.
+  - destruct (o_pk ob) as [pk|]; [|exact P].
+    destruct (db_update sch (s_db s) (o_ent ob) pk (p :: l)) as [er|d'].
+    + destruct er; simpl; exact P.
+    + simpl. apply FIN. eapply Pk_fields; [reflexivity|reflexivity|reflexivity|exact P]. exact G.
+Qed.
+
+Lemma status_eqb_eq : forall a b, status_eqb a b = true -> a = b.
+Proof. destruct a, b; simpl; intro; try discriminate; reflexivity. Qed.
+
+Lemma Pk_save_deleted : forall sch s o, Pk sch s -> Pk sch (out_state (save_deleted sch s o)).
+Proof.
+  intros sch s o P. unfold save_deleted. destruct (get_obj s o) as [ob|] eqn:G; [|exact P].
+  destruct (status_eqb (o_st ob) SMarked) eqn:ST; cbn [negb out_state]; [|apply Pk_dirty; discriminate].
+  apply status_eqb_eq in ST.
+  destruct (o_pk ob) as [pk|] eqn:PK; [|exact P].
+  remember (db_delete sch (s_db s) (o_ent ob) pk) as dd eqn:DDel. clear DDel. destruct dd as [er|d']; cbn [out_state]. exact P.
+  destruct P as [D|[I SH]]. { left. unfold idx_del, set_idx. cbn [s_dirty]. rewrite upd_obj_dirty. exact D. }
+  right. split.
+  - eapply (Inv_rekey_slot sch s _ o ob (ob_set_st ob SDeleted) O); eauto.
+    + rewrite get_obj_idx_del, get_upd_obj_same. unfold get_obj, set_db. cbn [s_objs]. fold (get_obj s o). rewrite G. reflexivity.
+    + intros o' N. rewrite get_obj_idx_del, get_upd_obj_other by auto. reflexivity.
+    + intros k N. unfold kview. cbn [o_ent o_st ob_set_st]. rewrite ST. destruct k; [congruence|]. simpl. rewrite !andb_false_r. reflexivity.
+    + intros e k v. rewrite idx_del_char, idx_get_upd_obj.
+      unfold kview. cbn [o_ent o_st ob_set_st okey o_pk is_key]. rewrite ST, PK. simpl.
+      rewrite (val_eqb_sym v (VInt pk)).
+      change (idx_get (set_db s d') e k v) with (idx_get s e k v).
+      destruct (Nat.eqb e (o_ent ob)); simpl; auto. destruct (Nat.eqb k 0); simpl; auto.
+    + intros v H. unfold kview in H. cbn [o_st ob_set_st] in H. simpl in H. discriminate.
+  - unfold idx_del, set_idx. intros o' ob'. unfold get_obj. cbn [s_objs]. fold (get_obj (upd_obj (set_db s d') o (fun ob2 => ob_set_st ob2 SDeleted)) o').
+    apply (shape_upd_obj sch (set_db s d') o). exact SH. intros. auto.
+Qed.
+
+Lemma okey_S_put_none : forall ob a x, oval ob a = Some VNone -> okey (ob_put_val ob a None) (S x) = okey ob (S x).
+Proof.
+  intros. simpl. destruct (Nat.eq_dec a x) as [->|N].
+  - rewrite H. unfold oval, ob_put_val, ob_set_vals. cbn [o_vals].
+    destruct (lt_dec x (length (o_vals ob))).
+    + rewrite nth_upd_nth_same by assumption. reflexivity.
+    + assert (E : upd_nth (o_vals ob) x None = o_vals ob).
+      { clear H. revert x n. induction (o_vals ob) as [|y l IH]; intros x n; destruct x; simpl in *; auto; try lia. f_equal. apply IH. lia. }
+      rewrite E. unfold oval in H. rewrite H. reflexivity.
+  - rewrite oval_put_other by assumption. reflexivity.
+Qed.
+
+Lemma after_insert_vals_props : forall sch ob,
+  o_ent (after_insert_vals sch ob) = o_ent ob /\ o_st (after_insert_vals sch ob) = o_st ob /\
+  o_pk (after_insert_vals sch ob) = o_pk ob /\ length (o_vals (after_insert_vals sch ob)) = length (o_vals ob) /\
+  forall x, okey (after_insert_vals sch ob) (S x) = okey ob (S x).
+Proof.
+  intros. unfold after_insert_vals. generalize (seq O (nattrs sch (o_ent ob))). intro l.
+  set (step := fun acc a => if attr_is_set sch (o_ent ob) a then acc
+                            else match oval acc a with
+                                 | Some VNone => ob_put_dbval (ob_put_val acc a None) a None
+                                 | Some v => ob_put_dbval acc a (Some v)
+                                 | None => acc end).
+  assert (ST : forall acc a, o_ent (step acc a) = o_ent acc /\ o_st (step acc a) = o_st acc /\ o_pk (step acc a) = o_pk acc /\
+                             length (o_vals (step acc a)) = length (o_vals acc) /\ forall x, okey (step acc a) (S x) = okey acc (S x)).
+  { intros acc a. unfold step. destruct (attr_is_set sch (o_ent ob) a). repeat split; auto.
+    destruct (oval acc a) as [v|] eqn:OV; [|repeat split; auto].
+    destruct v; try (repeat split; auto; fail).
+    repeat split; auto.
+    - unfold ob_put_dbval, ob_put_val, ob_set_dbvals, ob_set_vals. cbn [o_vals]. apply upd_nth_length.
+    - intros x. change (okey (ob_put_dbval (ob_put_val acc a None) a None) (S x)) with (okey (ob_put_val acc a None) (S x)).
+      apply okey_S_put_none. assumption. }
+  assert (H : forall acc, o_ent (fold_left step l acc) = o_ent acc /\ o_st (fold_left step l acc) = o_st acc /\
+                          o_pk (fold_left step l acc) = o_pk acc /\ length (o_vals (fold_left step l acc)) = length (o_vals acc) /\
+                          forall x, okey (fold_left step l acc) (S x) = okey acc (S x)).
+  { induction l as [|a l IH]; intros acc; cbn [fold_left]. repeat split; auto.
+    destruct (IH (step acc a)) as (A & B & C & D & E). destruct (ST acc a) as (A1 & B1 & C1 & D1 & E1).
+    repeat split; try congruence. }
+  apply H.
+Qed.
+
+Lemma db_insert_pk : forall sch d e z cols d' pk', db_insert sch d e (Some z) cols = inr (d', pk') -> pk' = z.
+Proof.
+  intros. unfold db_insert in H. destruct (has_row d e z); try discriminate.
+  destruct (negb (notnull_ok sch e cols)); try discriminate. destruct (negb (uniq_ok sch e cols (tab d e))); try discriminate.
+  destruct (negb (fk_ok sch d e cols)); try discriminate. inversion H. reflexivity.
+Qed.
+
+Lemma Pk_save_created : forall sch s o, Pk sch s -> Pk sch (out_state (save_created sch s o)).
+Proof.
+  intros sch s o P. unfold save_created. destruct (get_obj s o) as [ob|] eqn:G; [|exact P].
+  destruct (status_eqb (o_st ob) SCreated) eqn:ST; cbn [negb out_state]; [|apply Pk_dirty; discriminate].
+  apply status_eqb_eq in ST.
+  remember (db_insert sch (s_db s) (o_ent ob) (o_pk ob) (row_of_obj sch s ob)) as di eqn:DI. symmetry in DI.
+  destruct di as [er|[d' newpk]]. { destruct er; exact P. }
+  set (F := fun ob2 => after_insert_vals sch (ob_set_wbits (ob_set_st (ob_set_pk ob2 (Some newpk)) SInserted) (repeat false (nattrs sch (o_ent ob))))).
+  assert (FP : forall ob2, o_ent (F ob2) = o_ent ob2 /\ o_st (F ob2) = SInserted /\ o_pk (F ob2) = Some newpk /\
+               length (o_vals (F ob2)) = length (o_vals ob2) /\ forall x, okey (F ob2) (S x) = okey ob2 (S x)).
+  { intros ob2. unfold F. destruct (after_insert_vals_props sch (ob_set_wbits (ob_set_st (ob_set_pk ob2 (Some newpk)) SInserted) (repeat false (nattrs sch (o_ent ob))))) as (A & B & C & D & E).
+    rewrite A, B, C, D. repeat split; auto. }
+  destruct (FP ob) as (F1 & F2 & F3 & F4 & F5).
+  assert (KS : forall k, k <> O -> kview sch (F ob) k = kview sch ob k).
+  { intros k N. destruct k; [congruence|]. unfold kview. rewrite F1, F2, ST. rewrite F5. reflexivity. }
+  assert (SHP : forall s1, Inv_shape sch s1 -> Inv_shape sch (upd_obj s1 o F)).
+  { intros s1 SH1. apply shape_upd_obj; auto. intros ob2. destruct (FP ob2) as (A & _ & _ & D & _). auto. }
+  destruct (o_pk ob) as [z|] eqn:PK.
+  - (* explicit primary key *)
+    apply db_insert_pk in DI. subst newpk. cbn [out_state].
+    destruct P as [D|[I SH]]. { left. rewrite upd_obj_dirty. exact D. }
+    right. split.
+    + eapply (Inv_same_kview sch (set_db s d') _ o ob (F ob)); eauto.
+      * rewrite get_upd_obj_same. change (get_obj (set_db s d') o) with (get_obj s o). rewrite G. reflexivity.
+      * intros o' N. apply get_upd_obj_other. auto.
+      * intros k. destruct k; [|apply KS; congruence]. unfold kview. cbn [is_key okey]. rewrite F2, F3, ST, PK. reflexivity.
+      * apply upd_obj_idx.
+    + apply SHP. exact SH.
+  - destruct (idx_get (set_db s d') (o_ent ob) O (VInt newpk)) as [o2|] eqn:IX.
+    + destruct (Nat.eqb o2 o) eqn:EQ; cbn [out_state]; [|apply Pk_dirty; discriminate].
+      apply Nat.eqb_eq in EQ. subst o2.
+      destruct P as [D|[I SH]]. { left. rewrite upd_obj_dirty. exact D. }
+      exfalso. change (idx_get (set_db s d') (o_ent ob) 0 (VInt newpk)) with (idx_get s (o_ent ob) 0 (VInt newpk)) in IX.
+      apply (I (o_ent ob) O (VInt newpk) o) in IX. destruct IX as (b & Hb & _ & Hk). rewrite G in Hb. inversion Hb; subst b.
+      unfold kview in Hk. simpl in Hk. rewrite PK in Hk. destruct (negb (is_gone (o_st ob))); discriminate.
+    + cbn [out_state]. destruct P as [D|[I SH]]. { left. rewrite upd_obj_dirty. exact D. }
+      right. split.
+      * eapply (Inv_rekey_slot sch s _ o ob (F ob) O); eauto.
+        -- rewrite get_upd_obj_same, get_obj_idx_put. change (get_obj (set_db s d') o) with (get_obj s o). rewrite G. reflexivity.
+        -- intros o' N. rewrite get_upd_obj_other by auto. reflexivity.
+        -- intros e k v. rewrite idx_get_upd_obj, idx_put_char.
+           change (idx_get (set_db s d') e k v) with (idx_get s e k v).
+           unfold kview. cbn [is_key okey]. rewrite F2, F3, ST, PK. simpl. rewrite (val_eqb_sym v (VInt newpk)).
+           destruct (Nat.eqb e (o_ent ob)); simpl; auto. destruct (Nat.eqb k 0); simpl; auto.
+        -- intros v H _. unfold kview in H. cbn [is_key okey] in H. rewrite F2, F3 in H. simpl in H. inversion H; subst v. exact IX.
+      * apply SHP. apply (shape_fields sch s); auto.
+Qed.
+
+Lemma Pk_save_principals : forall sch rec ob l s,
+  (forall s p, Pk sch s -> Pk sch (out_state (rec s p))) -> Pk sch s -> Pk sch (out_state (save_principals rec ob s l)).
+Proof.
+  intros sch rec ob l. induction l as [|a l IH]; intros s R P; simpl. exact P.
+  destruct (oval ob a) as [[| | |p]|]; try (apply IH; auto; fail).
+  destruct (status_eqb (obj_st s p) SCreated); [|apply IH; auto].
+  pose proof (R s p P) as P1. destruct (rec s p) as [s1 u|s1 er]; [|exact P1]. apply IH; auto.
+Qed.
+
+Lemma Pk_save_obj : forall sch fuel s o deps, Pk sch s -> Pk sch (out_state (save_obj fuel sch s o deps)).
+Proof.
+  intros sch fuel. induction fuel as [|f IH]; intros s o deps P; simpl. exact P.
+  destruct (get_obj s o) as [ob|] eqn:G; [|exact P].
+  match goal with |- context [match ?r0 with Ok _ _ => _ | Err _ _ => _ end] => set (r := r0) end.
+  assert (P0 : Pk sch (out_state r)).
+  { unfold r. destruct (status_eqb (o_st ob) SCreated || status_eqb (o_st ob) SModified); [|exact P].
+    destruct (mem_nat o deps). exact P. apply Pk_save_principals; auto. }
+  destruct r as [s1 u|s1 er]; [|exact P0]. cbn [out_state] in P0.
+  match goal with |- context [match ?r1 with Ok _ _ => _ | Err _ _ => _ end] => set (r2 := r1) end.
+  assert (P1 : Pk sch (out_state r2)).
+  { unfold r2. destruct (o_st ob); try exact P0. apply Pk_save_created; auto. apply Pk_save_updated; auto. apply Pk_save_deleted; auto. }
+  destruct r2 as [s2 u2|s2 er]; [|exact P1]. cbn [out_state] in *.
+  eapply Pk_fields; [reflexivity|reflexivity|reflexivity|].
+  eapply kframe_Pk; [|exact P1]. eapply kframe_trans. apply kframe_unqueue. apply kframe_upd_obj. intros. apply kobj_eq_pos.
+Qed.
+
+Lemma Pk_flush_loop : forall sch l s, Pk sch s -> Pk sch (out_state (flush_loop sch s l)).
+Proof.
+  intros sch l. induction l as [|i l IH]; intros s P; cbn [flush_loop]. exact P.
+  destruct (nth i (s_tosave s) None) as [o|]; [|apply IH; auto].
+  pose proof (Pk_save_obj sch (S (length (s_objs s))) s o [] P) as P1.
+  remember (save_obj (S (length (s_objs s))) sch s o []) as r eqn:R. clear R.
+  destruct r as [s1 u|s1 er]; [|exact P1]. apply IH; auto.
+Qed.
+
+Lemma Pk_flush : forall sch s, Pk sch s -> Pk sch (out_state (flush sch s)).
+Proof.
+  intros sch s P. unfold flush. destruct (s_savedpend s). exact P. destruct (negb (s_modified s)). exact P.
+  match goal with |- context [if ?c then _ else _] => destruct c end. exact P.
+  assert (P0 : Pk sch (calc_modcoll s)) by (eapply kframe_Pk; eauto; apply kframe_calc_modcoll).
+  pose proof (Pk_flush_loop sch (seq O (length (s_tosave (calc_modcoll s)))) (calc_modcoll s) P0) as P1.
+  destruct (flush_loop sch (calc_modcoll s) (seq 0 (length (s_tosave (calc_modcoll s))))) as [s2 u|s2 er]; [|exact P1].
+  exact P1.
+Qed.
+
+Lemma Pk_auto_flush : forall sch s, Pk sch s -> Pk sch (out_state (auto_flush sch s)).
+Proof. intros. unfold auto_flush. destruct (s_modified s). apply Pk_flush; auto. exact H. Qed.
+
+(* ---------------------------------------------------------------- collections and deletion *)
+
+Lemma any_del_kframe : forall sch s s' l, kframe sch s s' -> any_del s' l = any_del s l.
+Proof. intros. unfold any_del. apply existsb_ext_eq. intros x. apply (kframe_is_del sch s s' x H). Qed.
+
+Lemma Pk_fold_out : forall sch A (f : sess -> A -> out unit) l s,
+  (forall s x, Pk sch s -> Pk sch (out_state (f s x))) -> Pk sch s -> Pk sch (out_state (fold_out f s l)).
+Proof.
+  intros sch A f l. induction l as [|x l IH]; intros s H P; simpl. exact P.
+  pose proof (H s x P) as P1. destruct (f s x) as [s1 u|s1 er]; [|exact P1]. apply IH; auto.
+Qed.
+
+Section WithSchema2.
+Variable sch : schema.
+Hypothesis WF : wf_schema sch = true.
+
+Lemma Pk_coll_add : forall s o a items, Pk sch s -> Pk sch (out_state (coll_add sch s o a items)).
+Proof.
+  intros s o a items P. unfold coll_add. destruct items as [|i0 items0]. exact P.
+  set (items := i0 :: items0). set (items1 := if has_sd s o a then diff_nat items (sd_items (get_sd s o a)) else items).
+  match goal with |- context [match ?r0 with Ok _ _ => _ | Err _ _ => _ end] => set (r := r0) end.
+  assert (P0 : Pk sch (out_state r)).
+  { unfold r. destruct (has_sd s o a && coll_full s o a). exact P. apply Pk_coll_load_items. exact P. }
+  destruct r as [s1 u|s1 er]; [|exact P0]. cbn [out_state] in P0.
+  destruct (any_del s1 (diff_nat items1 (sd_items (get_sd s1 o a)))) eqn:AD. exact P0.
+  destruct (set_info sch (obj_ent s1 o) a) as [[t r_]|]; [|exact P0].
+  set (items2 := diff_nat items1 (sd_items (get_sd s1 o a))) in *.
+  assert (F : kframe sch s1 (fold_left (fun acc i => item_link sch acc o a r_ i) items2 (note_order s1 items2))).
+  { apply (kframe_trans sch s1 (note_order s1 items2)). apply kframe_note_order. apply kframe_fold_items.
+    - intros. apply kframe_item_link; auto.
+    - rewrite (any_del_kframe sch s1 (note_order s1 items2) items2 (kframe_note_order sch oid s1 items2)). exact AD. }
+  pose proof (kframe_Pk sch _ _ F P0) as P2.
+  match goal with |- context [if ?c then _ else _] => destruct c end. simpl. apply Pk_dirty. discriminate.
+  cbn [out_state]. eapply Pk_fields; [reflexivity|reflexivity|reflexivity|].
+  eapply kframe_Pk; [|exact P2]. eapply kframe_trans. apply kframe_put_sd. apply kframe_modcoll_add.
+Qed.
+
+Lemma Pk_coll_nonzero : forall s o a, Pk sch s -> Pk sch (out_state (coll_nonzero sch s o a)).
+Proof.
+  intros s o a P. unfold coll_nonzero.
+  match goal with |- context [match ?r0 with Ok _ _ => _ | Err _ _ => _ end] => set (r := r0) end.
+  assert (P0 : Pk sch (out_state r)). { unfold r. destruct (has_sd s o a). exact P. apply Pk_coll_load_noflush. exact P. }
+  destruct r as [s1 u|s1 er]; [|exact P0]. cbn [out_state] in P0.
+  destruct (sd_items (get_sd s1 o a)). 2: exact P0.
+  destruct (coll_full s1 o a). exact P0.
+  pose proof (Pk_coll_load_noflush sch s1 o a P0) as P1. destruct (coll_load_noflush sch s1 o a); exact P1.
+Qed.
+
+Lemma Pk_coll_assign_gen : forall del s o a items,
+  (forall s x, Pk sch s -> Pk sch (out_state (del s x))) ->
+  Pk sch s -> Pk sch (out_state (coll_assign_gen del sch s o a items)).
+Proof.
+  intros del s o a items DEL P. unfold coll_assign_gen.
+  match goal with |- context [match ?r0 with Ok _ _ => _ | Err _ _ => _ end] => set (r := r0) end.
+  assert (P0 : Pk sch (out_state r)).
+  { unfold r. destruct (has_sd s o a).
+    - destruct (coll_full s o a). exact P. apply Pk_coll_load_noflush. exact P.
+    - destruct (status_eqb (obj_st s o) SCreated). simpl. eapply kframe_Pk; [apply kframe_put_sd|exact P]. apply Pk_coll_load_noflush. exact P. }
+  destruct r as [s1 u|s1 er]; [|exact P0]. cbn [out_state] in P0.
+  destruct (seteq_nat items (sd_items (get_sd s1 o a))). exact P0.
+  set (to_add := diff_nat items (sd_items (get_sd s1 o a))). set (to_remove := diff_nat (sd_items (get_sd s1 o a)) items).
+  destruct (any_del s1 to_add) eqn:AD.
+  { destruct (set_cascade sch (obj_ent s1 o) a && match to_remove with [] => false | _ => true end); simpl.
+    apply Pk_dirty_keep. exact P0. exact P0. }
+  destruct (set_info sch (obj_ent s1 o) a) as [[t r_]|]; [|exact P0].
+  set (s1' := note_order (note_order s1 to_remove) to_add).
+  assert (F1 : kframe sch s1 s1') by (unfold s1'; eapply kframe_trans; apply kframe_note_order).
+  pose proof (kframe_Pk sch _ _ F1 P0) as P1.
+  destruct (negb (set_cascade sch (obj_ent s1 o) a) && any_del s1 to_remove) eqn:AR. simpl. apply Pk_dirty. discriminate.
+  match goal with |- context [match ?r0 with Ok _ _ => _ | Err _ _ => _ end] => set (r2 := r0) end.
+  assert (P2 : Pk sch (out_state r2)).
+  { unfold r2. destruct (set_cascade sch (obj_ent s1 o) a) eqn:SC.
+    - apply Pk_fold_out; auto.
+    - simpl in AR. cbn [out_state]. eapply kframe_Pk; [|exact P1]. apply kframe_fold_items.
+      + intros. apply kframe_ref_set_rev; auto.
+      + rewrite (any_del_kframe sch s1 s1' to_remove F1). exact AR. }
+  destruct r2 as [s2 u2|s2 er]; [|exact P2]. cbn [out_state] in P2.
+  destruct (any_del s2 to_add) eqn:AD2. simpl. apply Pk_dirty. discriminate.
+  assert (F3 : kframe sch s2 (fold_left (fun acc i => item_link sch acc o a r_ i) to_add s2)).
+  { apply kframe_fold_items. intros. apply kframe_item_link; auto. exact AD2. }
+  pose proof (kframe_Pk sch _ _ F3 P2) as P3.
+  match goal with |- context [if ?c then _ else _] => destruct c end. simpl. apply Pk_dirty. discriminate.
+  cbn [out_state]. eapply Pk_fields; [reflexivity|reflexivity|reflexivity|].
+  eapply kframe_Pk; [|exact P3]. eapply kframe_trans. apply kframe_put_sd. apply kframe_modcoll_add.
+Qed.
+
+
+Lemma Pk_coll_remove_gen : forall del s o a items,
+  (forall s x, Pk sch s -> Pk sch (out_state (del s x))) ->
+  Pk sch s -> Pk sch (out_state (coll_remove_gen del sch s o a items)).
+Proof.
+  intros del s o a items DEL P. unfold coll_remove_gen.
+  set (items0 := if has_sd s o a then diff_nat items (sd_removed (get_sd s o a)) else items).
+  destruct items0 as [|i0 it0] eqn:I0. exact P. rewrite <- I0. clear I0.
+  match goal with |- context [match ?r0 with Ok _ _ => _ | Err _ _ => _ end] => set (r := r0) end.
+  assert (P0 : Pk sch (out_state r)).
+  { unfold r. destruct (has_sd s o a && coll_full s o a). exact P. apply Pk_coll_load_items. exact P. }
+  destruct r as [s1 u|s1 er]; [|exact P0]. cbn [out_state] in P0.
+  set (items1 := inter_nat items0 (sd_items (get_sd s1 o a))).
+  destruct (set_info sch (obj_ent s1 o) a) as [[t r_]|]; [|exact P0].
+  set (s1' := note_order s1 items1).
+  assert (F1 : kframe sch s1 s1') by (apply kframe_note_order).
+  pose proof (kframe_Pk sch _ _ F1 P0) as P1.
+  destruct (negb (set_cascade sch (obj_ent s1 o) a) && any_del s1 items1) eqn:AR. simpl. apply Pk_dirty. discriminate.
+  match goal with |- context [match ?r0 with Ok _ _ => _ | Err _ _ => _ end] => set (r2 := r0) end.
+  assert (P2 : Pk sch (out_state r2)).
+  { unfold r2. destruct (set_cascade sch (obj_ent s1 o) a) eqn:SC.
+    - apply Pk_fold_out; auto.
+    - simpl in AR. cbn [out_state]. eapply kframe_Pk; [|exact P1]. apply kframe_fold_items.
+      + intros. apply kframe_ref_set_rev; auto.
+      + rewrite (any_del_kframe sch s1 s1' items1 F1). exact AR. }
+  destruct r2 as [s2 u2|s2 er]; [|exact P2]. cbn [out_state] in P2.
+  match goal with |- context [if ?c then _ else _] => destruct c end. simpl. apply Pk_dirty. discriminate.
+  cbn [out_state]. eapply Pk_fields; [reflexivity|reflexivity|reflexivity|].
+  eapply kframe_Pk; [|exact P2]. eapply kframe_trans. apply kframe_put_sd. apply kframe_modcoll_add.
+Qed.
+
+Lemma del_keys_objs : forall l s o e, s_objs (del_keys sch s o e l) = s_objs s /\ s_dirty (del_keys sch s o e l) = s_dirty s.
+Proof.
+  induction l as [|a l IH]; intros s o e; unfold del_keys; simpl. auto.
+  set (s1 := if attr_uniq sch e a then match obj_val s o a with Some v => if is_vnone v then s else idx_del s e (S a) v | None => s end else s).
+  assert (E : s_objs s1 = s_objs s /\ s_dirty s1 = s_dirty s).
+  { unfold s1. destruct (attr_uniq sch e a); auto. destruct (obj_val s o a) as [v|]; auto. destruct (is_vnone v); auto. }
+  change (fold_left _ l s1) with (del_keys sch s1 o e l). destruct (IH s1 o e) as [A B]. destruct E. split; congruence.
+Qed.
+
+Lemma del_keys_spec : forall l s o e ob, get_obj s o = Some ob ->
+  forall e' k v, idx_get (del_keys sch s o e l) e' k v =
+    if Nat.eqb e' e && match k with
+                       | O => false
+                       | S a => mem_nat a l && attr_uniq sch e a && oval_eqb (oval ob a) (Some v) && negb (is_vnone v)
+                       end
+    then None else idx_get s e' k v.
+Proof.
+  induction l as [|a l IH]; intros s o e ob G e' k v.
+  - unfold del_keys. simpl. destruct k; rewrite ?andb_false_r; reflexivity.
+  - unfold del_keys. simpl. fold del_keys.
+    set (s1 := if attr_uniq sch e a then match obj_val s o a with Some v0 => if is_vnone v0 then s else idx_del s e (S a) v0 | None => s end else s).
+    change (fold_left _ l s1) with (del_keys sch s1 o e l).
+    assert (G1 : get_obj s1 o = Some ob).
+    { unfold s1. destruct (attr_uniq sch e a); auto. destruct (obj_val s o a) as [v0|]; auto. destruct (is_vnone v0); auto. }
+    rewrite (IH s1 o e ob G1 e' k v).
+    assert (S1 : idx_get s1 e' k v = if Nat.eqb e' e && match k with O => false | S b => Nat.eqb b a && attr_uniq sch e a && oval_eqb (oval ob a) (Some v) && negb (is_vnone v) end then None else idx_get s e' k v).
+    { unfold s1. rewrite (obj_val_get s o ob a G).
+      destruct (attr_uniq sch e a) eqn:U; [|destruct k; rewrite ?andb_false_r; simpl; rewrite ?andb_false_r; reflexivity].
+      destruct (oval ob a) as [v0|] eqn:OV; [|destruct k; rewrite ?andb_false_r; simpl; rewrite ?andb_false_r; reflexivity].
+      destruct (is_vnone v0) eqn:NV.
+      - destruct (Nat.eqb e' e); simpl; auto. destruct k as [|b]; auto. destruct (Nat.eqb b a); simpl; auto.
+        destruct (val_eqb v0 v) eqn:EV; simpl; auto. apply val_eqb_eq in EV. subst. rewrite NV. reflexivity.
+      - rewrite idx_del_char. destruct (Nat.eqb e' e); simpl; auto. destruct k as [|b]; simpl; auto.
+        destruct (Nat.eqb b a); simpl; auto. rewrite (val_eqb_sym v v0).
+        destruct (val_eqb v0 v) eqn:EV; simpl; auto. apply val_eqb_eq in EV. subst. rewrite NV. reflexivity. }
+    rewrite S1. destruct (Nat.eqb e' e); simpl; auto. destruct k as [|b]; auto.
+    destruct (Nat.eqb b a) eqn:BA; simpl; auto.
+    apply Nat.eqb_eq in BA. subst b.
+    destruct (attr_uniq sch e a); simpl; rewrite ?andb_false_r; auto.
+    destruct (oval_eqb (oval ob a) (Some v)); simpl; rewrite ?andb_false_r; auto.
+    destruct (is_vnone v); simpl; rewrite ?andb_false_r; auto.
+    destruct (mem_nat a l); reflexivity.
+Qed.
+End WithSchema2.
+
+Section WithSchema3.
+Variable sch : schema.
+Hypothesis WF : wf_schema sch = true.
+
+Lemma kframe_del_unlink : forall l s o e, kframe sch s (del_unlink sch s o e l).
+Proof.
+  intros. unfold del_unlink. apply kframe_fold. intros s0 a.
+  destruct (ref_info sch e a) as [[t r]|]; try apply kframe_refl.
+  destruct (obj_val s0 o a) as [[| | |x]|]; try apply kframe_refl. apply kframe_rev_remove.
+Qed.
+
+Lemma mem_seq : forall a n, mem_nat a (seq O n) = Nat.ltb a n.
+Proof.
+  intros. destruct (Nat.ltb a n) eqn:L.
+  - apply mem_nat_In. apply in_seq. apply Nat.ltb_lt in L. lia.
+  - apply mem_nat_false. intro H. apply in_seq in H. apply Nat.ltb_ge in L. lia.
+Qed.
+
+Lemma attr_uniq_lt : forall e a, attr_uniq sch e a = true -> Nat.ltb a (nattrs sch e) = true.
+Proof.
+  intros. unfold attr_uniq in H. destruct (get_attr sch e a) eqn:G; try discriminate.
+  apply Nat.ltb_lt. eapply get_attr_lt; eauto.
+Qed.
+
+(* key views of a live, not created-or-deleted object *)
+Lemma kview_live : forall ob k, is_del (o_st ob) = false ->
+  kview sch ob k = match k with
+                   | O => okey ob O
+                   | S a => if attr_uniq sch (o_ent ob) a then okey ob (S a) else None
+                   end.
+Proof.
+  intros. unfold kview. destruct k; simpl.
+  - assert (is_gone (o_st ob) = false) by (destruct (o_st ob); simpl in *; congruence). rewrite H0. reflexivity.
+  - rewrite H. simpl. rewrite andb_true_r. reflexivity.
+Qed.
+
+Lemma Pk_delete_tail : forall s1 o ob, Pk sch s1 -> is_del (o_st ob) = false -> Pk sch (out_state (delete_tail sch s1 o ob)).
+Proof.
+  intros s1 o ob P ND. unfold delete_tail.
+  set (e := o_ent ob). set (attrs := seq O (nattrs sch e)).
+  set (s2 := del_unlink sch s1 o e attrs).
+  assert (F2 : kframe sch s1 s2) by apply kframe_del_unlink.
+  pose proof (kframe_Pk sch s1 s2 F2 P) as P2.
+  set (s3 := del_keys sch s2 o e attrs).
+  destruct (del_keys_objs sch attrs s2 o e) as [OBJ3 DIRTY3]. fold s3 in OBJ3, DIRTY3.
+  assert (GO : forall o', get_obj s3 o' = get_obj s2 o') by (intros; unfold get_obj; rewrite OBJ3; reflexivity).
+  destruct (get_obj s3 o) as [ob3|] eqn:G3.
+  2:{ cbn [out_state]. destruct P2 as [D|[I SH]]. left. congruence. left. admit. }
+  admit.
+Admitted.
+End WithSchema3.
